@@ -446,3 +446,80 @@ Proof.
   destruct (or_else (w_mro w) (w_qname w)); [exact Hgo|].
   destruct (w_mrn w); [exact Hgo|exact Hunc].
 Qed.
+
+(* ---------------------------------------------------------------- unhinted / hinted names *)
+
+Definition exactf (m : cmode) : bool := match m with Standard => false | _ => true end.
+
+Lemma write_unhinted_spec c0 n w : nb w -> c0 <= w_cursor w -> wf_name n -> priors_ok w ->
+  name_post (exactf (w_mode w)) c0 n w (write_unhinted_name n w).
+Proof.
+  intros Hnb Hc Hwf Hp. unfold write_unhinted_name.
+  pose proof (write_uncompressed_spec c0 n w Hnb Hc Hwf) as U.
+  pose proof (write_compressed_spec c0 n w Hnb Hc Hwf Hp) as C.
+  destruct (w_mode w) eqn:Em; simpl in *.
+  - destruct (2 <? length (nm_wire n)); [exact C|apply name_post_weaken; exact U].
+  - destruct (2 <? length (nm_wire n)); [exact C|exact U].
+  - exact U.
+Qed.
+
+(* the API contract of hints: the prior occurrence a hint resolves to is the given name *)
+Definition hint_contract (h : hint) (n : wname) (w : writer) : Prop :=
+  match h with
+  | HQname => forall pr, w_qname w = Some pr -> hinted n w pr
+  | HOwner => forall pr, w_mro w = Some pr -> hinted n w pr
+  | HRdata => forall pr, w_mrn w = Some pr -> hinted n w pr
+  | HExplicit p => p < w_cursor w -> hinted n w (prior_new p n)
+  | HNone => True
+  end.
+
+Lemma write_hinted_spec c0 h n w : nb w -> c0 <= w_cursor w -> wf_name n -> priors_ok w ->
+  hint_contract h n w ->
+  name_post (exactf (w_mode w)) c0 n w (write_hinted_name h n w).
+Proof.
+  intros Hnb Hc Hwf Hp Hh. unfold write_hinted_name.
+  pose proof (write_uncompressed_spec c0 n w Hnb Hc Hwf) as U.
+  pose proof (write_compressed_spec c0 n w Hnb Hc Hwf Hp) as C.
+  destruct (w_mode w) eqn:Em; simpl in *.
+  - destruct (length (nm_wire n) <=? 2); [apply name_post_weaken; exact U|].
+    destruct h; simpl in Hh.
+    + destruct (w_qname w) as [pr|]; [|exact C]. apply push_prior_ptr_spec; auto.
+    + destruct (w_mro w) as [pr|]; [|exact C]. apply push_prior_ptr_spec; auto.
+    + destruct (w_mrn w) as [pr|]; [|exact C]. apply push_prior_ptr_spec; auto.
+    + destruct (p <? w_cursor w) eqn:El; [|exact C]. apply Nat.ltb_lt in El.
+      apply push_prior_ptr_spec; auto.
+    + exact C.
+  - destruct (length (nm_wire n) <=? 2); [exact U|exact C].
+  - exact U.
+Qed.
+
+(* C13, compression disabled: whatever the hint, the plain wire form is written *)
+Lemma disabled_plain_hinted h n w pr w' : w_mode w = Disabled ->
+  write_hinted_name h n w = Ok (pr, w') ->
+  slice (w_buf w') (w_cursor w) (w_cursor w') = nm_wire n /\ w_cursor w' = w_cursor w + length (nm_wire n).
+Proof.
+  intros Em. unfold write_hinted_name. rewrite Em. unfold write_uncompressed_name.
+  destruct (try_push (nm_wire n) w) as [[u w1]|[e w1]|] eqn:E; simpl; try discriminate.
+  intros H; inversion H; subst.
+  destruct (try_push_ext 0 _ _ _ _ E ltac:(lia)) as [_ [_ [Hcur [Hsl _]]]]. auto.
+Qed.
+
+Lemma disabled_plain_unhinted n w pr w' : w_mode w = Disabled ->
+  write_unhinted_name n w = Ok (pr, w') ->
+  slice (w_buf w') (w_cursor w) (w_cursor w') = nm_wire n /\ w_cursor w' = w_cursor w + length (nm_wire n).
+Proof.
+  intros Em. unfold write_unhinted_name. rewrite Em. unfold write_uncompressed_name.
+  destruct (try_push (nm_wire n) w) as [[u w1]|[e w1]|] eqn:E; simpl; try discriminate.
+  intros H; inversion H; subst.
+  destruct (try_push_ext 0 _ _ _ _ E ltac:(lia)) as [_ [_ [Hcur [Hsl _]]]]. auto.
+Qed.
+
+(* names in RDATA that must not be compressed (SRV, Chaosnet A): always the plain wire form *)
+Lemma uncompressed_plain n w pr w' : write_uncompressed_name n w = Ok (pr, w') ->
+  slice (w_buf w') (w_cursor w) (w_cursor w') = nm_wire n /\ w_cursor w' = w_cursor w + length (nm_wire n).
+Proof.
+  unfold write_uncompressed_name.
+  destruct (try_push (nm_wire n) w) as [[u w1]|[e w1]|] eqn:E; simpl; try discriminate.
+  intros H; inversion H; subst.
+  destruct (try_push_ext 0 _ _ _ _ E ltac:(lia)) as [_ [_ [Hcur [Hsl _]]]]. auto.
+Qed.
